@@ -606,6 +606,7 @@ type openFailOnceLoader struct {
 	at    int
 	n     int
 	fired *int
+	kind  int // what the failure looks like: a plain error, "does not exist" (although the member has the file), "permission", io.EOF
 }
 
 func (l *openFailOnceLoader) Exists(p string) bool { return l.inner.Exists(p) }
@@ -614,6 +615,14 @@ func (l *openFailOnceLoader) Open(p string) (io.ReadCloser, error) {
 	l.n++
 	if l.n == l.at {
 		*l.fired++
+		switch l.kind {
+		case 1:
+			return nil, &os.PathError{Op: "open", Path: "INJ-loader" + p, Err: os.ErrNotExist}
+		case 2:
+			return nil, &os.PathError{Op: "open", Path: "INJ-loader" + p, Err: os.ErrPermission}
+		case 3:
+			return nil, io.EOF
+		}
 		return nil, fmt.Errorf("INJ-loader: transient failure opening %q", p)
 	}
 	return l.inner.Open(p)
@@ -880,10 +889,10 @@ func RunC19(env *sim.Env) {
 		}
 		// (spare capacity, as a list built by append usually has: what one stack appends must not
 		// show up in another stack built from the same list)
-		// one stack in five has a member whose k-th Open fails once
-		if t.Choose(5) == 4 {
+		// one stack in three has a member whose k-th Open fails once
+		if t.Choose(3) == 2 {
 			v := luts[t.Choose(len(luts))]
-			v.loader = &openFailOnceLoader{inner: v.loader, at: t.Range(1, 4), fired: &c.memberOpenFails}
+			v.loader = &openFailOnceLoader{inner: v.loader, at: t.Range(1, 4), fired: &c.memberOpenFails, kind: []int{0, 1, 1, 1, 2, 3}[t.Choose(6)]}
 			c.hist = append(c.hist, "member-"+v.kind+"-open-fails-once")
 			env.Stat("probe:multi_with_a_member_whose_open_fails_once", 1)
 		}
